@@ -160,6 +160,8 @@ class Cluster(object):
             if i<Nvac:
                 if i == 0: r += (-1,)  # add the "vacancy" indexing
                 else: r += (r[0],)  # add the native chemistry
+            elif transition and not vacancy and i < 2:
+                r += (-2,)  # mark the transition pair (same mark on both sites: equality is up to reversal)
             hashcache ^= hash(r + shiftpos)
             if r not in self.__equalitymap__:
                 self.__equalitymap__[r] = set([shiftpos])
